@@ -418,5 +418,8 @@ def run(rep: Report, tier: str) -> None:
     fr = P.func(f"{f.module.name}.fetch_result")
     rep.instance("R13.8", "premise/fetch-rewrites-table", nontrivial=False, sample="apply_time_period_representation" in src(fr.node))
     rep.analysed = {"execute_queries_nodes": len(g.nodes), "sql_table_lifetime_sites": nsql, "selection_truth_table": table}
+    rep.rule("R13.9", "a scalar (or dataset) read inside a clause is a scheduled input of every statement that reads it (shared rule: C12 R12.9)")
+    from sa.checks.c12 import unknown_resolution
+    unknown_resolution(P, rep, "R13.9")
     rep.assumptions = ["normal-flow paths only for ordering (an exception aborts the run; its cleanup is C16)",
                        "the DAG's dependencies dict is filled in increasing statement number (single writer checked under R13.2)"]
